@@ -7,6 +7,11 @@
 #define STUB_EXTEND
 #include "hdr_env.h"
 
+#ifdef SYM_BYTES
+#define NAME_LOOP (PLEN_MAX + 1)      /* name length is bounded by PLEN_MAX in the long-header variants */
+#else
+#define NAME_LOOP S_MAX
+#endif
 static unsigned le16(const u8 *p) { return p[0] | (p[1] << 8); }
 static u32 le32(const u8 *p) { return p[0] | (p[1] << 8) | ((u32) p[2] << 16) | ((u32) p[3] << 24); }
 
@@ -24,6 +29,9 @@ void harness(void)
 	 * byte is large (HL_MIN..255) and the name short - what is exercised is the arithmetic on the length fields */
 	for (i = SYM_BYTES; i < S_MAX; ++i) data[i] = 0;
 	ASSUME(data[0] >= HL_MIN && data[21] <= PLEN_MAX);
+#ifdef HL_FIX
+	data[0] = HL_FIX;   /* concrete length byte (one variant per value): the copy and checksum loops fold */
+#endif
 #endif
 	for (i = 0; i < S_MAX; ++i) st_data[i] = data[i];
 	st_len = slen;
@@ -63,15 +71,15 @@ void harness(void)
 		/* name: bytes up to the first NUL, '\\' -> '/', split after the last '/' */
 		{
 			unsigned n = 0, last = 0, has = 0, j;
-			for (j = 0; j < S_MAX; ++j) if (j < plen && n == j && data[22 + j] != 0) n = j + 1;
-			for (j = 0; j < S_MAX; ++j) if (j < n && (data[22 + j] == '\\' || data[22 + j] == '/')) { last = j + 1; has = 1; }
+			for (j = 0; j < NAME_LOOP; ++j) if (j < plen && n == j && data[22 + j] != 0) n = j + 1;
+			for (j = 0; j < NAME_LOOP; ++j) if (j < n && (data[22 + j] == '\\' || data[22 + j] == '/')) { last = j + 1; has = 1; }
 			if (plen == 0) CHECK(h->filename == NULL && h->path == NULL, "C05: empty name leaves name and path unset");
 			else {
 				CHECK(h->filename != NULL, "C05: name present");
 				if (has) CHECK(h->path != NULL, "C05: path present when the name contains a separator");
 				else CHECK(h->path == NULL, "C05: no path without a separator");
 				if (h->filename != NULL && (!has || h->path != NULL)) {
-					for (j = 0; j < S_MAX; ++j) {
+					for (j = 0; j < NAME_LOOP; ++j) {
 						if (j < last) { u8 e = data[22 + j] == '\\' ? '/' : data[22 + j]; CHECK((u8) h->path[j] == e, "C05: path bytes with '\\\\' normalised to '/'"); }
 						else if (j < n) CHECK((u8) h->filename[j - last] == data[22 + j], "C05: file name bytes");
 					}
@@ -80,7 +88,7 @@ void harness(void)
 				}
 				if (h->filename != NULL) {
 					unsigned end = 0;
-					for (j = 0; j < S_MAX; ++j) if (!end) { if (h->filename[j] == 0) end = 1; else CHECK(h->filename[j] != '/', "C11: file name contains no '/'"); }
+					for (j = 0; j < NAME_LOOP; ++j) if (!end) { if (h->filename[j] == 0) end = 1; else CHECK(h->filename[j] != '/', "C11: file name contains no '/'"); }
 				}
 			}
 		}
